@@ -1067,7 +1067,7 @@ class OptionStore:
         if opt.readonly and changed and not first_invocation:
             raise MesonException(f'Tried to modify read only option "{error_key}"')
 
-        if key.name == 'prefix' and first_invocation and changed:
+        if key.name == 'prefix' and key in self.options and first_invocation and changed:
             assert isinstance(old_value, str), 'for mypy'
             assert isinstance(new_value, str), 'for mypy'
             self.reset_prefixed_options(old_value, new_value)
